@@ -32,6 +32,8 @@ type globStats struct {
 	Exhaustive string         `json:"exhaustive_part"`
 	Samples    []string       `json:"samples"`
 	OracleFail map[string]int `json:"oracle_failures"`
+	Probes     int            `json:"rerun_probes"`
+	Edits      int            `json:"rerun_probe_edits"`
 }
 
 // segment matcher for the reference: literals and '*'
@@ -184,6 +186,28 @@ func globCmd(args []string) error {
 			}
 			return strings.Join(rel, ","), nil
 		}
+		// an unforced run of u (a fresh SpokFile, as a new invocation would build): was u skipped?
+		runU := func(pattern string) (bool, error) {
+			src := fmt.Sprintf("task t(%q, \"../AAA.lit\") {\n    run t\n}\n\ntask u(%q, t) {\n    run u\n}\n", pattern, pattern)
+			tree, err := parser.New(src).Parse()
+			if err != nil {
+				return false, err
+			}
+			sf, err := file.New(tree, root, log)
+			if err != nil {
+				return false, err
+			}
+			results, err := sf.Run(iostream.Null(), &recRunner{}, false, "u")
+			if err != nil {
+				return false, err
+			}
+			for _, r := range results {
+				if r.Task == "u" {
+					return r.Skipped, nil
+				}
+			}
+			return false, fmt.Errorf("u not in the results")
+		}
 		for pi, pattern := range append(append([]string{}, fragment...), beyond...) {
 			inFragment := pi < len(fragment)
 			res, err := expandOnce(pattern)
@@ -221,6 +245,46 @@ func globCmd(args []string) error {
 			} else if res != res2 {
 				st.OracleFail["C05"]++
 				fmt.Fprintf(bo, "C05 %s two expansions of the unchanged tree differ: [%s] vs [%s]\n", strings.ReplaceAll(cs, " ", "_"), res, res2)
+			}
+			// end to end, on a third of the cases: which edits make the task run again.  The forced runs above recorded the
+			// task's inputs; now (a) nothing changed: u is skipped exactly when the pattern denotes something, (b) a file the
+			// pattern does not denote (hidden ones included) is edited: still skipped, (c) a denoted file is edited: u runs
+			if err == nil && res == ws && (mask+pi)%3 == 0 {
+				probe := func(what string, edit string, wantSkipped bool) {
+					if edit != "" {
+						st.Edits++
+						os.WriteFile(filepath.Join(root, edit), []byte(fmt.Sprintf("edit %d", st.Edits)), 0o644)
+					}
+					skipped, perr := runU(pattern)
+					st.Probes++
+					if perr != nil {
+						st.OracleFail["C05"]++
+						fmt.Fprintf(bo, "C05 %s %s: the run failed: %v\n", strings.ReplaceAll(cs, " ", "_"), what, perr)
+					} else if skipped != wantSkipped {
+						st.OracleFail["C05"]++
+						fmt.Fprintf(bo, "C05 %s %s: task skipped=%v, but the pattern denotes [%s] so skipped=%v is required\n", strings.ReplaceAll(cs, " ", "_"), what, skipped, ws, wantSkipped)
+					}
+				}
+				inWant := map[string]bool{}
+				var denoted, others []string
+				for _, w := range want {
+					inWant[w] = true
+					if !isDir(w) {
+						denoted = append(denoted, w)
+					}
+				}
+				for _, q := range allPaths {
+					if !isDir(q) && !inWant[q] {
+						others = append(others, q)
+					}
+				}
+				probe("after an unchanged re-run", "", len(want) > 0)
+				if len(others) > 0 && len(want) > 0 {
+					probe("after editing "+others[(mask+pi)%len(others)]+", which the pattern does not denote", others[(mask+pi)%len(others)], true)
+				}
+				if len(denoted) > 0 {
+					probe("after editing "+denoted[(mask+pi)%len(denoted)]+", which the pattern denotes", denoted[(mask+pi)%len(denoted)], false)
+				}
 			}
 			st.Patterns[pattern] += len(want)
 			if inFragment {
